@@ -357,6 +357,16 @@ def explore(tier, seed):
             if f and k not in seen:
                 seen.add(k)
                 fails.append(f)
+    for op1 in ("add", "mul"):
+        for op2 in ("add", "mul"):
+            for flag in ("none", "reassoc", "fast"):
+                for c1_left in (False, True):
+                    for c2_left in (False, True):
+                        cases += 1
+                        f = check_float_chain(op1, op2, 2.0, 4.0, flag, c1_left, c2_left)
+                        if f and "C14/float-chain" not in seen:
+                            seen.add("C14/float-chain")
+                            fails.append(dict(f, key="C14/float-chain", inputs={}))
     for pred in range(16):
         cases += 1
         f = check_select_cmpf(pred)
@@ -364,7 +374,7 @@ def explore(tier, seed):
             seen.add("C14/select-cmpf")
             fails.append(dict(f, key="C14/select-cmpf", inputs={}))
     return {"cases": cases, "failures": fails, "exhaustive": False,
-            "bound": f"select-over-cmpf for all 16 predicates x 4 subsets of (nnan, nsz) x 64 operand pairs incl. NaN/inf/signed zeros; directed families (every int/float binary op and cmpi predicate on every ordered pair of boundary constants per type; every int binary op with one boundary constant and one function argument in both operand orders, and x op x) + {n} seeded single-block programs (<= 6 arith ops of 20 integer kinds, cmpi, select, 4 float kinds; types i1/i8/i32/i64/index/f32/f64; boundary "
+            "bound": f"two-op float chains (x op1 c1) op2 c2 over addf/mulf x 3 fast-math settings x constant positions with exactly representable values; select-over-cmpf for all 16 predicates x 4 subsets of (nnan, nsz) x 64 operand pairs incl. NaN/inf/signed zeros; directed families (every int/float binary op and cmpi predicate on every ordered pair of boundary constants per type; every int binary op with one boundary constant and one function argument in both operand orders, and x op x) + {n} seeded single-block programs (<= 6 arith ops of 20 integer kinds, cmpi, select, 4 float kinds; types i1/i8/i32/i64/index/f32/f64; boundary "
                      f"constants) x pipelines {PASSES}; evaluated before/after on 12 boundary input vectors with an independent reference evaluator"}
 
 
@@ -553,6 +563,53 @@ def check_select_pattern(pattern, w, same_arms, m):
         if got != exp:
             return {"pattern": pattern, "width": w, "cond": c_, "lhs": x, "rhs": y, "constant operands": consts, "same arms": same_arms,
                     "value after the rewrite": got, "value before": exp}
+    return None
+
+
+@rechecked
+def check_float_chain(op1, op2, c1, c2, flag, c1_left, c2_left):
+    """
+    `(x op1 c1) op2 c2` over f64 with addf / mulf and a fast-math flag set, canonicalized and evaluated by a reference evaluator on operands for which
+    every intermediate result is exact (small integers and powers of two) - so even a licensed reassociation must give the SAME value.
+    """
+    from xdsl.context import Context
+    from xdsl.dialects import arith, func
+    from xdsl.dialects.builtin import Builtin, FloatAttr, ModuleOp, f64
+    from xdsl.ir import Block, Region
+    from xdsl.transforms.canonicalize import CanonicalizePass
+
+    flags = {"none": [], "reassoc": [arith.FastMathFlag.REASSOC], "fast": list(arith.FastMathFlag)}[flag]
+    fm = arith.FastMathFlagsAttr(flags)
+    cls = {"add": arith.AddfOp, "mul": arith.MulfOp}
+    blk = Block(arg_types=[f64])
+    k1, k2 = arith.ConstantOp(FloatAttr(c1, f64)), arith.ConstantOp(FloatAttr(c2, f64))
+    a = cls[op1](*((k1.result, blk.args[0]) if c1_left else (blk.args[0], k1.result)), fm)
+    b = cls[op2](*((k2.result, a.result) if c2_left else (a.result, k2.result)), fm)
+    blk.add_ops([k1, k2, a, b, func.ReturnOp(b.result)])
+    module = ModuleOp([func.FuncOp("f", ((f64,), (f64,)), Region(blk))])
+    before = str(module)
+    ctx = Context()
+    for d in (Builtin, arith.Arith, func.Func):
+        ctx.load_dialect(d)
+    CanonicalizePass().apply(ctx, module)
+
+    def ev(v, x):
+        from xdsl.ir import BlockArgument
+
+        if isinstance(v, BlockArgument):
+            return x
+        o = v.owner
+        if o.name == "arith.constant":
+            return o.value.value.data
+        l, r = ev(o.operands[0], x), ev(o.operands[1], x)
+        return l + r if o.name == "arith.addf" else l * r
+
+    f1 = {"add": lambda p, q: p + q, "mul": lambda p, q: p * q}
+    for x in (1.0, 2.0, -3.0, 0.5, 0.0):
+        exp = f1[op2](f1[op1](x, c1), c2)
+        got = ev(blk.last_op.operands[0], x)
+        if got != exp:
+            return {"program": before, "after canonicalize": str(module), "x": x, "returned": got, "expected": exp, "fastmath": flag}
     return None
 
 
